@@ -261,6 +261,28 @@ theorem polar_scale_is_scaling (r θ k : ℝ) :
   simp only [toCart, Prod.mk.injEq]
   constructor <;> ring
 
+/-! ## Conversion histories: a conversion is a function of the current value -/
+
+/-- **convert → reverse → convert**: the second conversion lists the converted points in the
+reversed order (point `i` of the reversed grid is point `N-1-i` of the original), whatever was
+converted before. -/
+theorem conversion_after_reverse (φ : List Rat → List Rat) (g : Grid) (h : g.coords.WF) :
+    convPoints φ g.reverse.coords = (convPoints φ g.coords).reverse := by
+  simp [convPoints, Grid.reverse, Coords.points_reverse g.coords h, List.map_reverse]
+
+/-- a conversion after a scale / shift converts the scaled / shifted points -/
+theorem conversion_after_scale_shift (φ : List Rat → List Rat) (c : Coords) (f b : List Rat)
+    (hf : f.length = c.ndim) (hb : b.length = c.ndim) :
+    convPoints φ (c.scale f) = c.points.map (φ ∘ scalePt f) ∧
+    convPoints φ (c.shift b) = c.points.map (φ ∘ shiftPt b) := by
+  simp [convPoints, Coords.points_scale c f hf, Coords.points_shift c b hb, List.map_map]
+
+/-- equal grids (`==`) convert to the same points: a fresh equal grid is as good as the one with
+a conversion history -/
+theorem conversion_of_equal_grids (φ : List Rat → List Rat) (a b : Grid) (h : a.eq b = true) :
+    convPoints φ a.coords = convPoints φ b.coords := by
+  rw [(Grid.eq_true_imp h).2]
+
 /-! ## The code before the repairs -/
 
 /-- D21: with signed automatic weights a reversed 1-D regular grid gets negative weights — unless the
